@@ -33,6 +33,12 @@ for meta in sorted(glob.glob("/verif/seeded/*/meta.json")):
         mode = "-"; res = f"MISSED exit {p.returncode}"
     rows.append((m["id"], m["property"], res + ": " + mode, "; ".join(dict.fromkeys(labels))[:260]))
     print(rows[-1])
+# results are kept per seed so that a partial run (seed ids on the command line) updates its rows only
+store = "/verif/seeded/results.json"
+allrows = json.load(open(store)) if os.path.exists(store) else {}
+for r in rows: allrows[r[0]] = list(r)
+json.dump(allrows, open(store, "w"), indent=1, sort_keys=True)
+rows = [tuple(allrows[k]) for k in sorted(allrows)]
 with open("/verif/seeded/RESULTS.md", "w") as f:
     f.write("# Seeded changes: what `./check <property>` says with each one applied to /repo\n\n(written by tools/run_seeds.py; /repo HEAD = %s)\n\n| seed | property | result | obligation / witness reported |\n|---|---|---|---|\n" %
             subprocess.run(["git", "-C", "/repo", "rev-parse", "--short", "HEAD"], capture_output=True, text=True).stdout.strip())
